@@ -536,11 +536,24 @@ package client
 //@ model func busRank(nc *nats.Conn, id string) int
 //@ model func below(nc *nats.Conn, a string, n string) bool
 //@ spec func treeKept(nc *nats.Conn) bool = forall p string, c string :: isChild(nc, p, c) == old(isChild(nc, p, c)) && busRank(nc, p) == old(busRank(nc, p)) && below(nc, p, c) == old(below(nc, p, c))
+// kid(nc, p, t, i), i < kidsN(nc, p, t): the answer of the store behind nc to GetNodes(nc, p, "all", t, false) (a function of the
+// store's state; unchanged while a scan reads the tree). reachP(nc, pts, a, p): place p is a or is reached from a through
+// children whose type is in pts (least fixed point: introduction rules and inversion are axioms).
+//@ model func kidsN(nc *nats.Conn, parent string, typ string) int
+//@ model func kid(nc *nats.Conn, parent string, typ string, i int) data.NodeEdge
+//@ model func reachP(nc *nats.Conn, pts []string, a string, p string) bool
+//@ spec func kidsKept(nc *nats.Conn) bool = (forall p string, t string :: kidsN(nc, p, t) == old(kidsN(nc, p, t))) && (forall p string, t string, i int :: kid(nc, p, t, i) == old(kid(nc, p, t, i))) && (forall pts []string, a string, p string :: reachP(nc, pts, a, p) == old(reachP(nc, pts, a, p)))
+//@ axiom reachP_refl: forall nc *nats.Conn, pts []string, a string :: reachP(nc, pts, a, a)
+//@ axiom reachP_step: forall nc *nats.Conn, pts []string, a string, t int, i int, p string :: triggers(reachP(nc, pts, kid(nc, a, pts[t], i).ID, p)) ==> (0 <= t && t < len(pts) && 0 <= i && i < kidsN(nc, a, pts[t]) && reachP(nc, pts, kid(nc, a, pts[t], i).ID, p) ==> reachP(nc, pts, a, p))
+//@ spec func invAt(a string) bool
+//@ axiom invAt_true: forall a string :: invAt(a)
+//@ axiom reachP_inv: forall nc *nats.Conn, pts []string, a string, p string :: triggers(reachP(nc, pts, a, p), invAt(a)) ==> (reachP(nc, pts, a, p) ==> p == a || (exists t int, i int :: 0 <= t && t < len(pts) && 0 <= i && i < kidsN(nc, a, pts[t]) && reachP(nc, pts, kid(nc, a, pts[t], i).ID, p)))
 //@ extern client.GetNodes(nc, parent, id, typ, includeDel)
 //@   fresh res0
 //@   modifies state(nc)
 //@   ensures busOps(nc) == old(busOps(nc)) + 1 && logKept(nc) && sentN(nc) == old(sentN(nc)) && treeKept(nc)
-//@   ensures len(res0) <= 140737488355328
+//@   ensures len(res0) <= 140737488355328 && kidsKept(nc)
+//@   ensures res1 == nil && id == "all" && !includeDel ==> len(res0) == kidsN(nc, parent, typ) && (forall k int :: 0 <= k && k < len(res0) ==> res0[k] == kid(nc, parent, typ, k))
 //@   ensures res1 == nil && id == "all" && !includeDel ==> (forall k int :: 0 <= k && k < len(res0) ==> isChild(nc, parent, res0[k].ID))
 //@   ensures res1 == nil && parent == "all" ==> (forall k int :: 0 <= k && k < len(res0) ==> res0[k].ID == id && (!includeDel ==> isChild(nc, res0[k].Parent, id)))
 //@ extern data.(NodeEdge).Desc(n)
@@ -619,6 +632,7 @@ package client
 //@   requires cs != nil
 //@   modifies cs.client
 //@   ensures toldKept(cs.client) && toldN(cs.client) == old(toldN(cs.client)) && stopReqs(cs.client) == old(stopReqs(cs.client)) + 1
+//@   ensures [C07, only] forall c Client :: c != cs.client ==> stopReqs(c) == old(stopReqs(c))
 
 //@ spec func own(p data.Point, nodeID string, self string) bool = (p.Origin == "" && nodeID == self) || p.Origin == self
 //@ spec func restarts(p data.Point) bool = (p.Type == "tombstone" && (p.Value == 1.0 || p.Value == 0.0)) || p.Type == "nodeType"
@@ -678,8 +692,8 @@ package client
 //@   local c []data.NodeEdge#1
 //@   local ncc []data.NodeEdgeChildren#1
 //@   local nec data.NodeEdgeChildren#1
-//@   local client client.Client#1
-//@   modifies state(nc), state(client.Client)
+//@   modifies state(nc)
+//@   ensures treeKept(nc) && kidsKept(nc)
 //@   ensures [C07] failed-gives-no-state: res1 != nil ==> res0 == nil
 //@   ensures [C07] state-is-of-the-node: res1 == nil ==> res0 != nil && isfresh(res0) && res0.node == n && res0.nc == nc && res0.nec.NodeEdge == n
 //@   assert [C07] children-are-the-current-answer: nec.NodeEdge == n && len(nec.Children) == len(c) && (forall k int :: 0 <= k && k < len(c) ==> nec.Children[k].NodeEdge == c[k] && len(nec.Children[k].Children) == 0) at "data.Decode(nec, &config)"
@@ -695,35 +709,65 @@ package client
 //@   local m *client.Manager[T]#1
 //@   local id string#1
 //@   local nodes []data.NodeEdge#1
+//@   local parentType string#2
 //@   local parentNodes []data.NodeEdge#3
+//@   local p data.NodeEdge#1
+//@   local c []data.NodeEdge#4
+//@   option srccopy
 //@   requires m != nil && busAcyclic(m.nc)
-//@   modifies state(m.nc), nodes0
-//@   ensures treeKept(m.nc) && (res1 == nil ==> refOf(res0) == refOf(nodes0) || isfresh(res0))
+//@   modifies state(m.nc), nodes0, state(client.verifGhost)
+//@   havoc state(client.verifGhost) at "GetNodes(m.nc, id, \"all\", m.nodeType, false)"
+//@   assume place-noted: (forall k string :: scanned(verifG, k) == (before(scanned(verifG, k)) || k == id)) && (forall k string :: skipped(verifG, k) == before(skipped(verifG, k))) at "GetNodes(m.nc, id, \"all\", m.nodeType, false)"
+//@   assert [C07] listed-in-the-callee-result: kidsListed(m.nc, m.nodeType, c) at "append(nodes, c...)"
+//@   ensures treeKept(m.nc) && kidsKept(m.nc) && skippedSame() && (res1 == nil ==> refOf(res0) == refOf(nodes0) || allocd(res0))
+//@   ensures forall p string :: old(scanned(verifG, p)) ==> scanned(verifG, p)
+//@   ensures forall j int :: 0 <= j && j < len(nodes0) ==> nodes0[j] == old(nodes0[j])
+//@   ensures res1 == nil ==> len(res0) >= len(nodes0) && (forall j int :: 0 <= j && j < len(nodes0) ==> res0[j] == old(nodes0[j]))
+//@   ensures [C07] nodes-of-scanned-places-listed: res1 == nil ==> kidsListed(m.nc, m.nodeType, res0)
+//@   ensures [C07] every-reachable-place-scanned: res1 == nil ==> invAt(id) && (forall p string :: reachP(m.nc, m.parentTypes, id, p) ==> scanned(verifG, p))
 //@   decreases busRank(m.nc, id)
 //@   loop 1:
 //@     invariant -1 <= rangeindex && rangeindex < len(m.parentTypes) || rangeindex == -1
-//@     invariant treeKept(m.nc) && (refOf(nodes) == refOf(nodes0) || isfresh(nodes))
+//@     invariant treeKept(m.nc) && kidsKept(m.nc) && skippedSame() && (refOf(nodes) == refOf(nodes0) || isfresh(nodes))
+//@     invariant scanned(verifG, id) && (forall p string :: old(scanned(verifG, p)) ==> scanned(verifG, p))
+//@     invariant kidsListed(m.nc, m.nodeType, nodes)
+//@     invariant len(nodes) >= len(nodes0) && (forall j int :: 0 <= j && j < len(nodes0) ==> nodes[j] == old(nodes0[j]) && nodes0[j] == old(nodes0[j]))
+//@     invariant refOf(nodes) == refOf(nodes0) ==> offOf(nodes) == offOf(nodes0)
+//@     invariant forall t int, i int, p string :: 0 <= t && t <= rangeindex && 0 <= i && i < kidsN(m.nc, id, m.parentTypes[t]) && reachP(m.nc, m.parentTypes, kid(m.nc, id, m.parentTypes[t], i).ID, p) ==> scanned(verifG, p)
 //@     invariant refOf(nodes) == refOf(preloop(nodes)) || sinceLoop(nodes)
-//@     modifies state(m.nc), nodes
+//@     modifies state(m.nc), nodes, state(client.verifGhost)
 //@     decreases len(m.parentTypes) - rangeindex
 //@   loop 2:
 //@     invariant -1 <= rangeindex && rangeindex < len(parentNodes) || rangeindex == -1
-//@     invariant treeKept(m.nc) && (refOf(nodes) == refOf(nodes0) || isfresh(nodes))
+//@     invariant treeKept(m.nc) && kidsKept(m.nc) && skippedSame() && (refOf(nodes) == refOf(nodes0) || isfresh(nodes))
+//@     invariant scanned(verifG, id) && (forall p string :: old(scanned(verifG, p)) ==> scanned(verifG, p))
+//@     invariant kidsListed(m.nc, m.nodeType, nodes)
+//@     invariant len(nodes) >= len(nodes0) && (forall j int :: 0 <= j && j < len(nodes0) ==> nodes[j] == old(nodes0[j]) && nodes0[j] == old(nodes0[j]))
+//@     invariant refOf(nodes) == refOf(nodes0) ==> offOf(nodes) == offOf(nodes0)
+//@     invariant len(parentNodes) == kidsN(m.nc, id, parentType) && (forall k int :: 0 <= k && k < len(parentNodes) ==> parentNodes[k] == kid(m.nc, id, parentType, k))
+//@     invariant forall t int, i int, p string :: 0 <= t && t < rangeindex1 && 0 <= i && i < kidsN(m.nc, id, m.parentTypes[t]) && reachP(m.nc, m.parentTypes, kid(m.nc, id, m.parentTypes[t], i).ID, p) ==> scanned(verifG, p)
+//@     invariant forall i int, p string :: 0 <= i && i <= rangeindex && reachP(m.nc, m.parentTypes, parentNodes[i].ID, p) ==> scanned(verifG, p)
 //@     invariant refOf(nodes) == refOf(preloop(nodes)) || sinceLoop(nodes)
 //@     invariant refOf(parentNodes) != refOf(nodes) && refOf(parentNodes) != refOf(nodes0)
 //@     invariant forall k int :: 0 <= k && k < len(parentNodes) ==> isChild(m.nc, id, parentNodes[k].ID)
-//@     modifies state(m.nc), nodes
+//@     modifies state(m.nc), nodes, state(client.verifGhost)
 //@     decreases len(parentNodes) - rangeindex
 
 //@ model func skipped(g *verifGhost, key string) bool
+//@ model func scanned(g *verifGhost, place string) bool
+//@ spec func inList(l []data.NodeEdge, x data.NodeEdge) bool = exists j int :: 0 <= j && j < len(l) && l[j] == x
+//@ spec func kidsListed(nc *nats.Conn, typ string, l []data.NodeEdge) bool = forall p string, i int :: scanned(verifG, p) && !old(scanned(verifG, p)) && 0 <= i && i < kidsN(nc, p, typ) ==> inList(l, kid(nc, p, typ, i))
+//@ spec func skippedSame() bool = forall k string :: skipped(verifG, k) == old(skipped(verifG, k))
 //@ spec func skippedKept() bool = forall k string :: old(skipped(verifG, k)) ==> skipped(verifG, k)
 //@ extern github.com/nats-io/nats.go.(*Conn).Subscribe(nc, subj, cb)
 //@   fresh res0
 //@   modifies state(nc)
+//@   ensures treeKept(nc) && kidsKept(nc)
 
 //@ func (*Manager[T]).scan
 //@   props C07
 //@   local m *client.Manager[T]#1
+//@   local id string#1
 //@   local nodes []data.NodeEdge#1
 //@   local found map[string]bool#1
 //@   local n data.NodeEdge#1
@@ -733,8 +777,10 @@ package client
 //@   requires m != nil && m.clientStates != nil && m.clientUpSub != nil && busAcyclic(m.nc)
 //@   requires forall k string :: has(m.clientStates, k) ==> m.clientStates[k] != nil
 //@   modifies m.clientStates, m.clientUpSub, state(m.nc), state(client.Client), state(client.verifGhost)
+//@   havoc state(client.verifGhost) at "m.scanHelper(id, []data.NodeEdge{})"
+//@   assume scan-ghost-reset: (forall k string :: !scanned(verifG, k)) && (forall k string :: skipped(verifG, k) == before(skipped(verifG, k))) at "m.scanHelper(id, []data.NodeEdge{})"
 //@   havoc state(client.verifGhost) at "log.Printf(\"Error starting client %v: %v\", n, err)"
-//@   assume construction-failure-noted: forall k string :: skipped(verifG, k) == (before(skipped(verifG, k)) || k == key) at "log.Printf(\"Error starting client %v: %v\", n, err)"
+//@   assume construction-failure-noted: (forall k string :: skipped(verifG, k) == (before(skipped(verifG, k)) || k == key)) && (forall k string :: scanned(verifG, k) == before(scanned(verifG, k))) at "log.Printf(\"Error starting client %v: %v\", n, err)"
 //@   assert [C07] no-second-client-for-a-placement: !has(m.clientStates, placement(n)) at "newClientState(m.nc, m.construct, n)"
 //@   assert [C07] client-registered-under-its-placement: cs != nil && has(m.clientStates, placement(n)) && m.clientStates[placement(n)] == cs && cs.node == n at "fmt.Sprintf(\"up.%v.>\", cs.node.ID)"
 //@   assert [C07] only-vanished-placements-stopped: !has(found, key) && client == m.clientStates[key] at "client.stop(nil)"
@@ -745,13 +791,21 @@ package client
 //@     invariant forall k string :: old(has(m.clientStates, k)) ==> has(m.clientStates, k) && m.clientStates[k] == old(m.clientStates[k])
 //@     invariant forall k string :: has(m.clientStates, k) ==> m.clientStates[k] != nil
 //@     invariant skippedKept()
+//@     invariant forall k string :: has(m.clientStates, k) && !old(has(m.clientStates, k)) ==> has(found, k)
+//@     invariant forall p string, i int :: reachP(m.nc, m.parentTypes, id, p) && 0 <= i && i < kidsN(m.nc, p, m.nodeType) ==> inList(nodes, kid(m.nc, p, m.nodeType, i))
 //@     invariant [C07] found-is-the-scanned-placements: forall j int :: 0 <= j && j <= rangeindex ==> has(found, placement(nodes[j]))
 //@     invariant [C07] found-only-scanned-placements: forall k string :: has(found, k) ==> (exists j int :: 0 <= j && j <= rangeindex && k == placement(nodes[j]))
 //@     invariant [C07] every-scanned-placement-has-a-client: forall j int :: 0 <= j && j <= rangeindex ==> has(m.clientStates, placement(nodes[j])) || skipped(verifG, placement(nodes[j]))
-//@     modifies found, m.clientStates, m.clientUpSub, state(m.nc), state(client.Client), state(client.verifGhost)
+//@     modifies found, m.clientStates, m.clientUpSub, state(m.nc), state(client.verifGhost)
 //@     decreases len(nodes) - rangeindex
+//@   assert [C07] vanished-placements-asked-to-stop: forall k string :: has(m.clientStates, k) && !has(found, k) ==> stopReqs(m.clientStates[k].client) > old(stopReqs(m.clientStates[k].client)) at "return nil"
+//@   assert [C07] every-found-placement-has-a-client: forall j int :: 0 <= j && j < len(nodes) ==> has(found, placement(nodes[j])) && (has(m.clientStates, placement(nodes[j])) || skipped(verifG, placement(nodes[j]))) at "return nil"
+//@   assert [C07] found-only-scanned-placements: forall k string :: has(found, k) ==> (exists j int :: 0 <= j && j < len(nodes) && k == placement(nodes[j])) at "return nil"
+//@   assert [C07] every-node-of-the-type-under-a-managed-place-has-a-client: forall p string, i int :: reachP(m.nc, m.parentTypes, id, p) && 0 <= i && i < kidsN(m.nc, p, m.nodeType) ==> has(m.clientStates, placement(kid(m.nc, p, m.nodeType, i))) || skipped(verifG, placement(kid(m.nc, p, m.nodeType, i))) at "return nil"
 //@   loop 2:
 //@     invariant forall k string :: has(m.clientStates, k) ==> m.clientStates[k] != nil
+//@     invariant forall c Client :: stopReqs(c) >= preloop(stopReqs(c))
+//@     invariant [C07] visited-vanished-placements-stopped: forall k string :: visited(k) && has(m.clientStates, k) && !has(found, k) ==> stopReqs(m.clientStates[k].client) > preloop(stopReqs(m.clientStates[k].client))
 //@     modifies state(client.Client)
 
 // ---- node.go: GetNodesForUser (C09) ---------------------------------------------------------------------------
